@@ -333,7 +333,10 @@ CLAIMED = {
         ref='DESIGN.md §7 C14'),
     'C11': dict(
         technique='Lean 4 proof (induction over evaluation histories and structural induction over nesting trees) about an '
-                  'executable model of activation cells, evaluation logs, is_active and the aggregates + differential '
+                  'executable model of activation cells, evaluation logs, is_active and the aggregates, tied to the current source '
+                  'by the translator tools/rs2lean_causable.py (Gen/Causable.lean regenerated on every run by symbolic execution of '
+                  'impl Causable for Causaloid, its constructors, the CausableReasoning default methods and the CausaloidGraph '
+                  'aggregates; Props/C11Gen.lean proves that the model satisfies the generated equations) + differential '
                   'correspondence run over persistent models with clones',
         text='Theorems single_active_iff_last_ok_true / single_after_evaluation / errored_evaluation_changes_nothing (for every '
              'history of verify_single_cause / verify_all_causes / collection and graph reasoning calls with arbitrary data: a '
@@ -341,15 +344,23 @@ CLAIMED = {
              'wrapper_active_iff_exists_member + active_eq_spec (every causaloid, any nesting depth), '
              'number_active_eq_recount / percent_active_eq_recount (exact rational) / all_active_iff_recount, frame / frame_cell / '
              'frame_aggregate / unevaluated_unchanged (reasoning changes only singletons it evaluated, all of which belong to the '
-             'structure it was called on), clones_share_activation.',
-        note='Trusted: Lean kernel, Model/Causaloid.lean (cells = Arc<RwLock<bool>>, validated by comparing is_active of every '
-             'handle after every call and every aggregate), f64 percentages re-computed with Lean Float in the driver only, '
-             'the harness/driver pair.',
+             'structure it was called on), clones_share_activation. Tie to the source: Props/C11Gen.lean — verify_single_cause_eq, '
+             'verify_all_causes_eq, is_active_eq, is_singleton_eq (generated function on the record a generated constructor builds = '
+             'model function, verdict and cell writes), reason_all_causes_eq, number_active_eq, percent_active_eq, '
+             'get_all_causes_true_eq, graph_*_eq, constructors_start_inactive, and the laws on the generated definitions themselves '
+             '(c11gen_single_writes, c11gen_is_active_after_history, c11gen_aggregates, c11gen_run_append).',
+        note='Trusted: Lean kernel; the translator rs2lean_causable.py with its vocabulary (Arc<RwLock<bool>> = cell id with an event '
+             'log of writes, causal fn pointers = functions into V, members / the wrapped graph = abstract types with the required '
+             'trait methods as dictionaries, Vec = list, graph reasoning abstract) — fail-closed, cross-checked by the '
+             'correspondence run through the proved tie; the graph-reasoning part of Model/Causaloid.lean (validated by comparing '
+             'is_active of every handle after every call and every aggregate); f64 percentages re-computed with Lean Float in the '
+             'driver only; the harness/driver pair.',
         ref='DESIGN.md §7 C11'),
     'C02': dict(
         technique='Lean 4 proof (mutual structural induction over the nesting tree, reusing the DFS stack-machine lemmas at every '
-                  'graph level) about an executable model of Causaloid / collection / graph reasoning + differential '
-                  'correspondence run on generated nesting trees',
+                  'graph level) about an executable model of Causaloid / collection / graph reasoning; its singleton and collection '
+                  'levels are tied to the current source by the translator tools/rs2lean_causable.py (Gen/Causable.lean, '
+                  'Props/C11Gen.lean) + differential correspondence run on generated nesting trees',
         text='Theorems wrapper_eq_direct_{alone,in_collection,in_graph}: a wrapper gives, alone, as item i of a collection and as '
              'non-root node of a graph, exactly the verdict of reasoning directly over the wrapped structure with the data routed '
              'as the code routes it; nested_true_iff / nested_false / nested_err_never_true / nested_{false,err}_cause / '
@@ -357,8 +368,9 @@ CLAIMED = {
              'index, an answered verdict is the conjunction of the verdicts of all contained singletons (Spec.Nest.contained); '
              'nested_terminates + total forms; contextual_uses_own_ctx / nested_uses_own_ctxs. Quirks carried as hypotheses and '
              'covered as panic: wrapper in root position, wrapper node whose own id has no observation slot.',
-        note='Trusted: Lean kernel, the model Model/Causaloid.lean mirroring causable.rs / protocols/causable/mod.rs / '
-             'graph_reasoning.rs (validated by the correspondence run: every verdict and every is_active flag after every call), '
+        note='Trusted: Lean kernel, the graph-reasoning part of Model/Causaloid.lean mirroring graph_reasoning.rs (validated by the '
+             'correspondence run: every verdict and every is_active flag after every call; causable.rs and protocols/causable/mod.rs '
+             'are read by the translator rs2lean_causable.py and the model is proved to satisfy what it reads: Props/C11Gen.lean), '
              'petgraph neighbour order = ascending index, the harness/driver pair. none = panic or no answer within fuel.',
         ref='DESIGN.md §7 C02'),
     'C17': dict(
